@@ -177,8 +177,19 @@ def run(t, budget=1.0):
                     f.write(b"\n// stale trailing content that must disappear\n" * 50)
             rc3, _, _, _, snap3 = runner.run(schema, "det3-%d" % si, populate_from=stale)
             shutil.rmtree(stale, ignore_errors=True)
-            res.count(3)
-            for nm, rcx, sn in (("fresh-rerun", rc1, snap1), ("populated-rerun", rc2, snap2), ("stale-populated-rerun", rc3, snap3)):
+            # populated with what an aborted earlier run leaves behind: every file cut to a prefix (0 bytes / half)
+            trunc = os.path.join(work, "trunc-%d" % si)
+            shutil.rmtree(trunc, ignore_errors=True)
+            shutil.copytree(ref_dir, trunc)
+            for fi, p in enumerate(common._iter_files(trunc)):
+                data_ = open(p, "rb").read()
+                with open(p, "wb") as f:
+                    f.write(data_[:0 if fi % 2 == 0 else len(data_) // 2])
+            rc4, _, _, _, snap4 = runner.run(schema, "det4-%d" % si, populate_from=trunc)
+            shutil.rmtree(trunc, ignore_errors=True)
+            res.count(4)
+            for nm, rcx, sn in (("fresh-rerun", rc1, snap1), ("populated-rerun", rc2, snap2), ("stale-populated-rerun", rc3, snap3),
+                                ("truncated-populated-rerun", rc4, snap4)):
                 res.nontriv(("det", sname, nm))
                 res.cls("determinism_" + nm)
                 if rcx != 0 or sn != ref:
